@@ -12,9 +12,13 @@ use std::io::BufRead;
 use std::sync::atomic::{AtomicI64, Ordering::SeqCst};
 use std::sync::Arc;
 
+mod alloc;
 mod casts;
 mod life;
 mod shapes;
+
+#[global_allocator]
+static GLOBAL: alloc::Track = alloc::Track;
 
 pub static LIVE: AtomicI64 = AtomicI64::new(0);
 thread_local! {
@@ -22,13 +26,14 @@ thread_local! {
     pub static DROPS: RefCell<Vec<i64>> = RefCell::new(Vec::new());
 }
 pub fn log_call(row: Vec<i64>) { LOG.with(|l| l.borrow_mut().push(row)); }
+pub fn log_drop(v: i64) { DROPS.with(|d| d.borrow_mut().push(v)); }
 pub fn take_log() -> Vec<Vec<i64>> { LOG.with(|l| std::mem::take(&mut *l.borrow_mut())) }
 pub fn take_drops() -> Vec<i64> { DROPS.with(|l| std::mem::take(&mut *l.borrow_mut())) }
 
 pub type Rows = Vec<Vec<i64>>;
 #[derive(Default)]
 pub struct Mon { pub fails: Vec<String> }
-impl Mon { pub fn fail(&mut self, s: String) { if self.fails.len() < 8 { self.fails.push(s); } } }
+impl Mon { pub fn fail(&mut self, s: String) { let d = alloc::domain(0); if self.fails.len() < 8 { self.fails.push(s.clone()); } drop(s); alloc::domain(d); } }
 
 fn ints(s: &str) -> Vec<i64> { s.split_whitespace().map(|t| t.parse::<i64>().expect("int")).collect() }
 
@@ -42,17 +47,26 @@ fn main() {
         let hdr = ints(hd);
         let ops: Rows = if body.trim().is_empty() { vec![] } else { body.split(';').map(ints).collect() };
         let _ = take_log(); let _ = take_drops();
+        alloc::flush();
         let live0 = LIVE.load(SeqCst);
         let mut mon = Mon::default();
+        let base = alloc::snap();
+        alloc::domain(1);
         let rows = match hdr[0] {
             101 => shapes::run(&hdr[1..], &ops, &mut mon),
             106 => life::run(&hdr[1..], &ops, &mut mon),
             108 => casts::run(&hdr[1..], &ops, &mut mon),
             _ => vec![vec![-3]],
         };
+        alloc::domain(0);
         let live1 = LIVE.load(SeqCst);
         if live1 != live0 { mon.fail(format!("{} instances still alive after the case", live1 - live0)); }
         let text: Vec<String> = rows.iter().map(|r| r.iter().map(|v| v.to_string()).collect::<Vec<_>>().join(" ")).collect();
-        println!("{} # fails={}", text.join(" ; "), if mon.fails.is_empty() { "-".to_string() } else { mon.fails.join("|").replace(' ', "_") });
+        drop(rows);
+        let _ = take_log(); let _ = take_drops();
+        let after = alloc::snap();
+        println!("{} # leak_bytes={} leak_blocks={} mismatch={} double={} unknown={} fails={}", text.join(" ; "),
+            after.live_bytes - base.live_bytes, after.live_blocks - base.live_blocks, after.mismatch - base.mismatch, after.double - base.double, after.unknown - base.unknown,
+            if mon.fails.is_empty() { "-".to_string() } else { mon.fails.join("|").replace(' ', "_") });
     }
 }
